@@ -21,8 +21,10 @@ def cells(tier):
     T = 60 if tier == 'quick' else 600
     out = []
     N = 3 if tier == 'quick' else 4
-    for op in ALL_TYPES:
+    for op in ALL_TYPES + ('roCreate',):
         for first in (True, False):
+            if op == 'roCreate' and first:
+                continue
             P = {'op': op, 'N': N, 'first': first}
             sym = [('s%d' % i, 'str') for i in range(N)] + [('n0', 'str'), ('n1', 'str')]
             strs = [n for n, _ in sym]
@@ -77,6 +79,11 @@ def cells(tier):
         out.append(cmk(PID, ('roStoryMove', 'roDelete'), strict, 'string', T=T, mids=['20', '1'], tag='roDelete-has-the-id-of-roCreate'))
         out.append(cmk(PID, ('roStoryMove', 'roDelete', 'roStoryAppend'), strict, 'string', T=T, mids=['20', '20', '30'],
                        tag='roDelete-repeats-an-id'))
+    # a message that shares the roDelete's message ID and is listed after it stays after it
+    for strict in (True, False):
+        out.append(cmk(PID, ('roDelete', 'roStoryAppend'), strict, 'string', T=T, mids=['20', '20'], tag='same-id-as-roDelete-listed-after-it'))
+        out.append(cmk(PID, ('roStoryAppend', 'roDelete', 'roStoryMove'), strict, 'file', T=T, mids=['20', '20', '20'],
+                       tag='same-id-as-roDelete-listed-around-it'))
     # a collection built on an already completed running order stays completed and refuses everything
     for strict in (True, False):
         out.append(cmk(PID, ('roStoryMove', 'roMetadataReplace'), strict, 'string', T=T, rc_completed=True))
